@@ -681,7 +681,9 @@ impl<'a> Cur<'a> {
         let raw = self.take(n, what)?;
         let s = std::str::from_utf8(raw).map_err(|_| Malformed::BadUtf8)?;
         if s.contains('\0') {
-            return Err(Malformed::BadUtf8);
+            // [MQTT-1.5.3-2] forbids U+0000; it is well-formed UTF-8 though, so not the "invalid UTF-8"
+            // class of the C02 statement
+            return Err(Malformed::Other("null character in string"));
         }
         Ok(s.to_string())
     }
